@@ -1,11 +1,12 @@
-// C09 harness: etl::static_set / etl::flat_set (over etl::static_vector and over a minimal
-// inplace-vector-like container) / etl::flat_multiset against std::set / std::multiset on the
-// same history lines.  Protocol: see lean/Tetl/C09/Driver.lean.
+// C09 harness: etl::static_set / etl::flat_set (over etl::static_vector, over a minimal
+// inplace-vector-like container and — the members that compile — over etl::inplace_vector) /
+// etl::flat_multiset against std::set / std::multiset on the same history lines.  Protocol: see lean/Tetl/C09/Driver.lean.
 // Objects live in exact-size heap blocks, so an access past the object ends in an ASan red zone.
 #include "proto.hpp"
 
 #include <etl/flat_set.hpp>
 #include <etl/functional.hpp>
+#include <etl/inplace_vector.hpp>
 #include <etl/set.hpp>
 #include <etl/utility.hpp>
 #include <etl/vector.hpp>
@@ -111,13 +112,32 @@ struct Session {
     virtual std::string initial() const        = 0;
 };
 
-enum class K { ss, fs, fi };
+enum class K { ss, fs, fi, fv };
+
+// a container of type Cont holding [f, l): range constructor where there is one (static_vector, mini_vec),
+// unchecked_push_back for etl::inplace_vector (which has no range constructor)
+template <typename Cont>
+static Cont make_cont(int const* f, int const* l)
+{
+    if constexpr (requires { Cont(f, l); }) {
+        return Cont(f, l);
+    } else {
+        Cont c{};
+        for (; f != l; ++f) {
+            if (c.size() == c.max_size()) { std::fprintf(stderr, "make_cont: input exceeds the capacity\n"); std::abort(); }
+            c.unchecked_push_back(*f);
+        }
+        return c;
+    }
+}
 
 template <K Kind, int CAP, typename ECmp, typename SCmp>
 struct SessionT final : Session {
     static constexpr bool is_ss = Kind == K::ss;
+    static constexpr bool is_fv = Kind == K::fv;   // flat_set over etl::inplace_vector: only some members compile
     static constexpr bool transparent = etl::detail::is_transparent_v<ECmp>;
-    using Cont = std::conditional_t<Kind == K::fi, mini_vec<int, CAP>, etl::static_vector<int, CAP>>;
+    using Cont = std::conditional_t<Kind == K::fi, mini_vec<int, CAP>,
+        std::conditional_t<is_fv, etl::inplace_vector<int, CAP>, etl::static_vector<int, CAP>>>;
     using S    = std::conditional_t<is_ss, etl::static_set<int, CAP, ECmp>, etl::flat_set<int, Cont, ECmp>>;
     using O    = std::set<int, SCmp>;
 
@@ -135,6 +155,9 @@ struct SessionT final : Session {
         int const* l = v.data() + v.size();
         if constexpr (is_ss) {
             return std::make_unique<S>(f, l);
+        } else if constexpr (is_fv) {
+            (void)ctor;   // the only constructor taking elements that compiles
+            return std::make_unique<S>(etl::sorted_unique, make_cont<Cont>(f, l));
         } else {
             if (ctor == "su") return std::make_unique<S>(etl::sorted_unique, Cont(f, l));
             if (ctor == "sur") return std::make_unique<S>(etl::sorted_unique, f, l);
@@ -158,6 +181,7 @@ struct SessionT final : Session {
         std::vector<long long> none;
         auto const& init  = l.has("init") ? l.list("init") : none;
         auto const& other = l.has("other") ? l.list("other") : none;
+        if (is_fv && ctor != "su") { std::fprintf(stderr, "kind=fv needs ctor=su\n"); std::abort(); }
         cur               = make(ctor, init);
         oth               = make("range", other);
         scur              = make_std(init);
@@ -207,6 +231,48 @@ struct SessionT final : Session {
         if (het && !transparent) return "bad-op\tbad-op";
         if (su_violated) return "bad-op\tbad-op";   // nothing is specified after a violated precondition
 
+        if (op == "cmp") {
+            S const& o = *oth;
+            auto bits  = [](bool a, bool b, bool c, bool d, bool e, bool f) {
+                std::string r;
+                for (bool x : {a, b, c, d, e, f}) r += x ? '1' : '0';
+                return r;
+            };
+            return fin(bits(cs == o, cs != o, cs < o, cs <= o, cs > o, cs >= o),
+                bits(scur == soth, scur != soth, scur < soth, scur <= soth, scur > soth, scur >= soth));
+        }
+        if (op == "sizes") {
+            std::string full = "-";
+            if constexpr (is_ss) { full = proto::fmt_bool(cs.full()); }
+            std::string sfull = is_ss ? proto::fmt_bool(scur.size() == static_cast<std::size_t>(CAP)) : "-";
+            return fin("sz(" + std::to_string(cs.size()) + "," + proto::fmt_bool(cs.empty()) + "," + full + "," + std::to_string(cs.max_size()) + ")",
+                "sz(" + std::to_string(scur.size()) + "," + proto::fmt_bool(scur.empty()) + "," + sfull + "," + std::to_string(CAP) + ")");
+        }
+        if (op == "clear") {
+            s.clear();
+            scur.clear();
+            return fin("ok", "ok");
+        }
+        if (op == "extract") {
+            if constexpr (is_ss) {
+                return "bad-op\tbad-op";
+            } else {
+                Cont c = std::move(s).extract();
+                std::vector<long long> a(c.begin(), c.end());
+                std::vector<long long> b(scur.begin(), scur.end());
+                scur.clear();
+                return fin(proto::fmt_list(a), proto::fmt_list(b));
+            }
+        }
+        if constexpr (!is_fv) {
+        if (op == "erase_if") {
+            int m     = static_cast<int>(l.i("m"));
+            int r     = static_cast<int>(l.i("r"));
+            auto pred = [m, r](int v) { return v % m == r; };
+            auto a    = etl::erase_if(s, pred);
+            auto b    = std::erase_if(scur, pred);
+            return fin(std::to_string(a), std::to_string(b));
+        }
         if (op == "insert") {
             int k           = static_cast<int>(l.i("k"));
             std::string via = l.has("via") ? l.str("via") : "insert";
@@ -251,7 +317,16 @@ struct SessionT final : Session {
         if (op == "insert_range") {
             auto const& ks = l.list("ks");
             std::vector<int> v(ks.begin(), ks.end());
-            s.insert(static_cast<int const*>(v.data()), static_cast<int const*>(v.data() + v.size()));
+            if (l.i("su", 0) == 1) {
+                // insert(sorted_unique, first, last): the generator hands a sequence sorted w.r.t. the comparator and unique
+                if constexpr (is_ss) {
+                    return "bad-op\tbad-op";
+                } else {
+                    s.insert(etl::sorted_unique, static_cast<int const*>(v.data()), static_cast<int const*>(v.data() + v.size()));
+                }
+            } else {
+                s.insert(static_cast<int const*>(v.data()), static_cast<int const*>(v.data() + v.size()));
+            }
             for (int k : v) {
                 if (scur.count(k) == 0 && scur.size() >= static_cast<std::size_t>(CAP)) continue;
                 scur.insert(k);
@@ -282,11 +357,6 @@ struct SessionT final : Session {
             auto b  = soff(scur.erase(std::next(scur.begin(), static_cast<long>(f)), std::next(scur.begin(), static_cast<long>(la))));
             return fin(std::to_string(a), std::to_string(b));
         }
-        if (op == "clear") {
-            s.clear();
-            scur.clear();
-            return fin("ok", "ok");
-        }
         if (op == "swap") {
             std::string via = l.has("via") ? l.str("via") : "member";
             if (via == "free") {
@@ -297,17 +367,6 @@ struct SessionT final : Session {
             }
             scur.swap(soth);
             return fin("ok", "ok");
-        }
-        if (op == "extract") {
-            if constexpr (is_ss) {
-                return "bad-op\tbad-op";
-            } else {
-                Cont c = std::move(s).extract();
-                std::vector<long long> a(c.begin(), c.end());
-                std::vector<long long> b(scur.begin(), scur.end());
-                scur.clear();
-                return fin(proto::fmt_list(a), proto::fmt_list(b));
-            }
         }
         if (op == "replace") {
             if constexpr (is_ss) {
@@ -330,7 +389,9 @@ struct SessionT final : Session {
             for (auto it = scur.rbegin(); it != scur.rend(); ++it) b.push_back(*it);
             return fin(proto::fmt_list(a), proto::fmt_list(b));
         }
+        }   // !is_fv
         // lookups
+        if (!l.has("k")) return "bad-op\tbad-op";
         int k = static_cast<int>(l.i("k"));
         auto lookup = [&](auto f_e, auto f_s) -> std::string {
             std::string a, b;
@@ -411,7 +472,7 @@ static std::string mset(std::vector<long long> const& c)
 {
     std::vector<int> v(c.begin(), c.end());
     auto ms = std::make_unique<etl::flat_multiset<int, Cont, ECmp>>(
-        Cont(static_cast<int const*>(v.data()), static_cast<int const*>(v.data() + v.size())));
+        make_cont<Cont>(static_cast<int const*>(v.data()), static_cast<int const*>(v.data() + v.size())));
     std::vector<long long> a(ms->begin(), ms->end());
     std::multiset<int, SCmp> o(v.begin(), v.end());
     std::vector<long long> b(o.begin(), o.end());
@@ -425,7 +486,8 @@ int main(int argc, char** argv)
     return proto::run(argc, argv, [&](Line const& l) -> std::string {
         if (l.op == "new") {
             std::string kind = l.str("kind");
-            live             = kind == "ss" ? make_cap<K::ss>(l) : kind == "fs" ? make_cap<K::fs>(l) : kind == "fi" ? make_cap<K::fi>(l) : nullptr;
+            live             = kind == "ss" ? make_cap<K::ss>(l) : kind == "fs" ? make_cap<K::fs>(l) : kind == "fi" ? make_cap<K::fi>(l)
+                             : kind == "fv" ? make_cap<K::fv>(l) : nullptr;
             if (!live) return "bad-op\tbad-op";
             return live->initial();
         }
@@ -434,7 +496,14 @@ int main(int argc, char** argv)
             std::string kind = l.has("kind") ? l.str("kind") : "fs";
             auto const& c    = l.list("c");
             if (c.size() > 8) return "bad-op\tbad-op";
-            if (kind == "fi") {
+            if (kind == "fv") {
+                using IV = etl::inplace_vector<int, 8>;
+                if (cmp == "less") return mset<IV, etl::less<int>, std::less<int>>(c);
+                if (cmp == "greater") return mset<IV, etl::greater<int>, std::greater<int>>(c);
+                if (cmp == "tless") return mset<IV, etl::less<>, std::less<>>(c);
+                if (cmp == "tgreater") return mset<IV, etl::greater<>, std::greater<>>(c);
+                if (cmp == "hless") return mset<IV, half_less, half_less>(c);
+            } else if (kind == "fi") {
                 if (cmp == "less") return mset<mini_vec<int, 8>, etl::less<int>, std::less<int>>(c);
                 if (cmp == "greater") return mset<mini_vec<int, 8>, etl::greater<int>, std::greater<int>>(c);
                 if (cmp == "tless") return mset<mini_vec<int, 8>, etl::less<>, std::less<>>(c);
